@@ -55,6 +55,11 @@ def result_err_type(ty):
     head, args = split_generic(ty)
     if head == "std::task::Poll" and args:
         head, args = split_generic(args[0])
+    if head == "std::option::Option" and args:
+        # Option<Result<T, E>>: an iterator-style `next` that can fail
+        head, args = split_generic(args[0])
+        if head != "std::result::Result":
+            return None
     if head == "std::result::Result" and len(args) == 2:
         return args[1]
     return None
@@ -87,12 +92,36 @@ class Site:
         return "<%s %s:%s %s in %s>" % (self.fate, self.detail, self.callee_short(), self.event.site(), self.body.name)
 
 
+def _option_payloads(body, carriers):
+    """Locals holding the payload of an Option carrier: `(c as Some).0`, or the Continue
+    payload of `c?`."""
+    out = set()
+    branch_dests = set()
+    for e in body.events:
+        if e.callee == "std::ops::Try::branch" and e.args:
+            l = flow.operand_local(e.args[0])
+            if l in carriers and body.locals[l].startswith("std::option::Option<"):
+                branch_dests.add(e.dest["l"])
+    for bb, j, s in body.all_assigns():
+        rv = s["rv"]
+        if rv["rk"] == "use" and rv["ops"][0].get("k") in ("copy", "move") and not s["pl"]["p"]:
+            src = rv["ops"][0]["pl"]
+            if src["p"] and ((src["l"] in carriers and src["p"][0] == "dc:Some" and body.locals[src["l"]].startswith("std::option::Option<")) or
+                             (src["l"] in branch_dests and src["p"][0] == "dc:Continue")):
+                out.add(s["pl"]["l"])
+    return out
+
+
 def _carriers_with_transformers(body, start):
     """Carriers of the Result value, also through map_err / map / and_then ..."""
     carriers = set(flow.result_carriers(body, start))
     changed = True
     while changed:
         changed = False
+        for l in _option_payloads(body, carriers):
+            if l not in carriers:
+                carriers |= flow.result_carriers(body, l)
+                changed = True
         for e in body.events:
             if e.bb not in body.live or not e.args:
                 continue
@@ -220,7 +249,8 @@ def classify(body, event):
             name = e.name
             if decl == "std::ops::Try::branch":
                 used = True
-                site.fates.append(("propagated", "?", e.bb))
+                if not body.locals[l].startswith("std::option::Option<"):
+                    site.fates.append(("propagated", "?", e.bb))
             elif TRANSFORMERS.search(decl) or TRANSFORMERS.search(name) or decl == "std::future::Future::poll":
                 used = True
             elif PANIC_METHODS.search(decl):
